@@ -13,10 +13,10 @@ if ! (cd "$S/repo" && git init -q . 2>/dev/null && git apply "$PATCH"); then ech
 cp "$VERIF/known_findings.json" "$S/verif/"
 PROPS="$*"
 [ -z "$PROPS" ] && PROPS="$(python3 -c "import json;print(' '.join(c['property_id'] for c in json.load(open('$VERIF/MANIFEST.json'))['checks']))")"
-(cd "$VERIF/checker" && GOFLAGS=-mod=mod GOPROXY=off GOSUMDB=off GOTOOLCHAIN=local go build -o ../bin/cvcheck ./cmd/cvcheck) || exit 2
+[ -n "${CVBIN:-}" ] || (cd "$VERIF/checker" && GOFLAGS=-mod=mod GOPROXY=off GOSUMDB=off GOTOOLCHAIN=local go build -o ../bin/cvcheck ./cmd/cvcheck) || exit 2
 caught=""
 for p in $PROPS; do
-  out="$(VERIF_REPO="$S/repo" VERIF_DIR="$S/verif" "$VERIF/bin/cvcheck" -property "$p" -tier "${TIER:-quick}" 2>&1)"
+  out="$(VERIF_REPO="$S/repo" VERIF_DIR="$S/verif" "${CVBIN:-$VERIF/bin/cvcheck}" -property "$p" -tier "${TIER:-quick}" 2>&1)"
   if echo "$out" | grep -q '^VIOLATION property='; then
     caught="$caught $p"
     echo "$out" | grep -E '^(VIOLATION:|UNDECIDED:)' | cut -c1-400
